@@ -218,52 +218,9 @@ def showResult : Result → String
 
 def fuelBudget : Nat := 20000
 
-def isMark (e : Event) : Bool := e.startsWith "!"
-
-/-- Instrumentation for the unrepaired finding "enterNextFinallyFrame keeps a try-frame pointer across restoreStacks":
-does unwinding a return completion through `k` close an iterator (for-of / array-pattern iterator on goja's iterStack)
-BEFORE it enters the first pending finally block? -/
-def closesIterBeforeFinally : List Frame → Bool
-  | [] => false
-  | .tryK _ (some _) :: _ => false
-  | .catchK (some _) :: _ => false
-  | .forOfK _ _ _ _ :: k => hasPendingFin k
-  | .forArrK _ _ _ _ :: k => hasPendingFin k
-  | .letArrK _ _ _ :: k => hasPendingFin k
-  | _ :: k => closesIterBeforeFinally k
-where
-  hasPendingFin : List Frame → Bool
-    | [] => false
-    | .tryK _ (some _) :: _ => true
-    | .catchK (some _) :: _ => true
-    | _ :: k => hasPendingFin k
-
-def confOf : GState → Option Conf
-  | .susp c _ => some c
-  | _ => none
-
-/-- Per command: (events, result, `generator.returning` set during this command?, return(v) that closes an iterator
-before entering a finally?).  goja sets `returning` when return(v) reaches a suspended body and clears it only when
-the generator completes. -/
-def runMarked (fuel : Nat) : GState → Bool → List Cmd → List (List Event × Result × Bool × Bool)
-  | _, _, [] => []
-  | g, returning, c :: cs =>
-    let isRet := c.kind == .ret && g.tag == .susp
-    let returning := returning || isRet
-    let e := isRet && (match confOf g with | some cf => closesIterBeforeFinally cf.k | none => false)
-    let r := genCall fuel g c
-    (r.1, r.2.1, returning, e) :: runMarked fuel r.2.2 returning cs
-
-/-- The trace, followed by instrumentation tokens: `@i` = first command that raised a Go-panic-origin exception while
-`returning` was set, `%i` = first return(v) that closes an iterator before entering a finally block (the two
-unrepaired findings of known_findings.d/C09.json may show from there on). -/
 def traceOf (body : List Stmt) (cmds : List Cmd) : String :=
-  let tr := runMarked fuelBudget (GState.init body) false cmds
-  let t := " ".intercalate (tr.map (fun (ev, r, _, _) => ",".intercalate (ev.filter (!isMark ·)) ++ ";" ++ showResult r))
-  let idx := (tr.takeWhile (fun (ev, _, ret, _) => !(ret && ev.any isMark))).length
-  let idxE := (tr.takeWhile (fun (_, _, _, e) => !e)).length
-  let t := if idx < tr.length then t ++ " @" ++ toString idx else t
-  if idxE < tr.length then t ++ " %" ++ toString idxE else t
+  let tr := genRunFrom fuelBudget (GState.init body) cmds
+  " ".intercalate (tr.map (fun (ev, r) => ",".intercalate ev ++ ";" ++ showResult r))
 
 def splitOnTok (ts : List String) (sep : String) : List (List String) :=
   let r := ts.foldl (fun (acc : List (List String) × List String) t =>
